@@ -7,7 +7,7 @@
 namespace sim
 {
 
-std::vector<std::string> keys_for(std::initializer_list<const char*> grammars, bool with_pnode)
+std::vector<std::string> keys_for(std::initializer_list<const char*> grammars, bool with_pnode, bool with_xnode)
 {
     std::vector<std::string> r;
     for (const char* g : grammars)
@@ -15,6 +15,7 @@ std::vector<std::string> keys_for(std::initializer_list<const char*> grammars, b
             if (std::strcmp(e.grammar, g) == 0)
             {
                 if (!with_pnode && std::strcmp(e.value, "pnode") == 0) continue;
+                if (!with_xnode && std::strcmp(e.value, "xnode") == 0) continue;
                 r.push_back(e.key);
             }
     return r;
@@ -208,10 +209,12 @@ namespace
             { "G4", { "[" }, { "num" }, { "]" }, {}, 1 },
             { "G4", { "{", "str", ":" }, { "num" }, { "}" }, {}, 3 },
             { "G5", { "{" }, {}, { "}" }, {}, 2 },
-            { "G6", { "open" }, { "item" }, { "close" }, { "end" }, 1 },
+            { "G6", { "custom_lexeme_t_open" }, { "custom_lexeme_t_item" }, { "custom_lexeme_t_close" }, { "custom_lexeme_t_end" }, 1 },
             { "G7", { "{" }, {}, { "}" }, {}, 2 },
             { "G11", { "(" }, { "x", ";" }, { ")" }, {}, 2 },
             { "G3", { "z", "x" }, {}, {}, {}, 2 },
+            { "G14", { "[" }, { "x" }, { "]" }, {}, 2 },
+            { "G14", { "(" }, { "x" }, { ")" }, {}, 1 },
         };
         return r;
     }
